@@ -1,12 +1,5 @@
-mod adapt;
-mod astro;
-mod engine;
-mod lunmodel;
-mod model;
-mod props;
-mod terms;
-
-use engine::*;
+use tyme_verif::engine::*;
+use tyme_verif::props;
 
 fn usage() -> ! {
   eprintln!("usage: vcheck <Cxx> [--tier quick|thorough] [--seed N] [--replay FILE]");
@@ -27,6 +20,8 @@ fn main() {
   let mut replay: Option<String> = None;
   let mut worker: Option<(String, usize, usize, String)> = None;
   let mut aux: Option<(String, String)> = None;
+  let mut fuzz_stage: Option<u64> = None;
+  let mut fuzz_artifact: Option<String> = None;
   let mut i = 2;
   while i < args.len() {
     match args[i].as_str() {
@@ -40,6 +35,14 @@ fn main() {
       }
       "--replay" => {
         replay = Some(args[i + 1].clone());
+        i += 2;
+      }
+      "--fuzz-stage" => {
+        fuzz_stage = Some(args[i + 1].parse().unwrap_or(100_000));
+        i += 2;
+      }
+      "--fuzz-artifact" => {
+        fuzz_artifact = Some(args[i + 1].clone());
         i += 2;
       }
       "--aux" => {
@@ -62,7 +65,19 @@ fn main() {
   };
   install_panic_hook();
   let env = Env { prop: id.clone(), tier, seed, findings: Findings::load(&id), strict: replay.is_some() };
-  let code = if let Some((n, a)) = aux {
+  let code = if let Some(runs) = fuzz_stage {
+    tyme_verif::fuzzstage::run(&id, runs, seed)
+  } else if let Some(f) = fuzz_artifact {
+    std::env::set_var("VERIF_FUZZ_PROP", &id);
+    let data = std::fs::read(&f).expect("cannot read artifact");
+    match tyme_verif::fuzz::artifact_to_replay(&data) {
+      Some(_) => 1,
+      None => {
+        println!("artifact {}: no violation", f);
+        0
+      }
+    }
+  } else if let Some((n, a)) = aux {
     p.aux(&env, &n, &a)
   } else if let Some(f) = replay {
     run_replay(p.as_ref(), &env, &f)
